@@ -292,6 +292,29 @@ def r6(ctx, prop=P, rule="C14.R6"):
 RULES.append(r6)
 
 
+
+def flat_join(t):
+    """alternatives of a (nested) join term"""
+    if isinstance(t, tuple) and t and t[0] == "join":
+        out = []
+        for x in t[1]:
+            out.extend(flat_join(x))
+        return out
+    return [t]
+
+
+def subterms_shallow(t):
+    """the wrappers around the root call of a term (ok / await / field ..), not its arguments"""
+    out = []
+    while isinstance(t, tuple) and t and t[0] not in ("call", "join", "param", "lit", "const", "agg"):
+        out.append(t)
+        nxt = [x for x in t[1:] if isinstance(x, tuple)]
+        if not nxt:
+            break
+        t = nxt[0]
+    return out
+
+
 def read_until_complete(ctx, prop, rule):
     """A tree operation is computed in passes: a pass that does not find a node in memory returns
     read instructions (Left) and the caller reads them and asks again.  Whether a node is in memory
@@ -346,8 +369,10 @@ def read_until_complete(ctx, prop, rule):
                     o = fa.origin_operand(t["discr"], b.i, len(b.stmts))
                     if o[0] != "disc":
                         continue
-                    inner = strip(o[1])
-                    if isinstance(inner, tuple) and inner[0] == "call" and s_ in call_root_bb(inner) and callee_of(fa.body.blocks[s_].term) == c and not any(isinstance(x, tuple) and x[0] in ("branch", "poll") for x in subterms(o[1])):
+                    # the value matched on: ok(<this call>), or a join of the results of several passes
+                    # (`let mut pass = f(None)?; loop { match pass { .. pass = f(Some(..))?; } }`)
+                    alts = [strip(a) for a in flat_join(o[1])]
+                    if any(isinstance(a, tuple) and a[0] == "call" and a[1] == s_ and a[2] == c for a in alts) and not any(isinstance(x, tuple) and x[0] in ("branch", "poll") for a in flat_join(o[1]) for x in subterms_shallow(a)):
                         m = {v: x for v, x in t["targets"]}
                         left = m.get(0, t["otherwise"])
                 which = "%s (call %d of %d)" % (short, ss.index(s_) + 1, len(ss))
@@ -365,10 +390,14 @@ def read_until_complete(ctx, prop, rule):
                         continue
                     if is_agg(tt, "Err", "std::result::Result"):
                         # what `?` builds: Err(err(<a call's result>)), possibly converted
-                        e = strip(agg_field(tt, "0"))
-                        while isinstance(e, tuple) and e[0] == "call" and e[2].split("::")[-1] in ("from", "into") and e[3]:
-                            e = strip(e[3][0])
-                        if isinstance(e, tuple) and e[0] == "err":
+                        def propagated(e):
+                            e = strip(e)
+                            while isinstance(e, tuple) and e[0] == "call" and e[2].split("::")[-1] in ("from", "into") and e[3]:
+                                e = strip(e[3][0])
+                            if isinstance(e, tuple) and e[0] == "join":
+                                return all(propagated(x) for x in e[1])
+                            return isinstance(e, tuple) and e[0] == "err"
+                        if propagated(agg_field(tt, "0")):
                             continue
                     made_up.append("%s at %s" % (term_str(t_)[:70], loc(fa, bb)))
                 ctx.check(prop, rule, "%s: a pass that still misses nodes is followed by another read and another pass" % which, back and not made_up,
